@@ -18,7 +18,16 @@ import (
 	"strings"
 	"testing"
 
+	"math"
+
+	"encoding/base64"
+	"encoding/hex"
+	"github.com/gcash/bchd/wire"
+	"github.com/gcash/bchutil"
 	"github.com/gcash/bchutil/base58"
+	"github.com/gcash/bchutil/bloom"
+	"github.com/gcash/bchutil/jsonpb"
+	"sort"
 )
 
 // runDiff4 compiles a fresh Kernels4.v (logical name T7.Gen.Kernels4) and a file that evaluates `calls`
@@ -126,4 +135,404 @@ func TestDifferential7Base58(t *testing.T) {
 	calls = append(calls, "eqr (Kernels4.base58_Decode_ 2 [49; 49; 50]) (Panic 9)")
 	calls = append(calls, "eqr (Kernels4.base58_Encode_ 1 [255; 255]) (Panic 9)")
 	runDiff4(t, prelude7, calls)
+}
+
+const prelude7f = `From Coq Require Import ZArith NArith List Bool.
+From BU Require Import Lib.Bytes Amount.Amount.
+From T7 Require Gen.Kernels4.
+Import ListNotations.
+Definition fbits (f : Kernels4.Go4.float) : N := bits_of f.
+Definition eqf (f : Kernels4.Go4.float) (bits : N) (isnan : bool) : bool :=
+  if isnan then Kernels4.Go4.math_IsNaN f else (fbits f =? bits)%N.
+Definition fmtint (z b : Z) : list N := fmt_int b z.
+`
+
+// amount.go against Kernels4 (floats are passed as their bit patterns)
+func TestDifferential7Amount(t *testing.T) {
+	rng := rand.New(rand.NewSource(77))
+	var calls []string
+	fl := func(f float64) string { return fmt.Sprintf("(of_bits %d%%N)", math.Float64bits(f)) }
+	eqf := func(term string, want float64) string {
+		return fmt.Sprintf("eqf %s %d%%N %v", term, math.Float64bits(want), math.IsNaN(want))
+	}
+	floats := []float64{0, math.Copysign(0, -1), 1, -1, 0.5, -0.5, 1.5, 2.5, -2.5, 1e-8, 0.00000001, 21e6, 20999999.97690000, 1e308, -1e308,
+		math.Inf(1), math.Inf(-1), math.NaN(), math.MaxFloat64, math.SmallestNonzeroFloat64, 92233720368.54775807, 92233720368.54775808, 1e11, -1e11,
+		0.1, 0.2, 0.3, 4.35, 1.005, 123456.789, 0.123456785, 0.123456775, 9.2233720368547758e10}
+	for i := 0; i < 60; i++ {
+		floats = append(floats, math.Float64frombits(rng.Uint64()))
+		floats = append(floats, float64(rng.Int63n(2100000000000000))/1e8)
+	}
+	for _, f := range floats {
+		a, err := bchutil.NewAmount(f)
+		calls = append(calls, fmt.Sprintf("(let '(z, e) := Kernels4.NewAmount %s in (z =? %d)%%Z && Bool.eqb (negb (e =? 0)%%N) %v)", fl(f), int64(a), err != nil))
+	}
+	amounts := []int64{0, 1, -1, 100000000, 123456789, -123456789, 2100000000000000, math.MaxInt64, math.MinInt64, 44433322211100, 9007199254740993, 1e8 + 1}
+	for i := 0; i < 20; i++ {
+		amounts = append(amounts, rng.Int63n(2100000000000000))
+	}
+	units := []int{6, 3, 0, -3, -6, -8, 1, -1, 8, -9, 20, -20, 300, 301, -315, -316, -331, -332, 309, 400, -400}
+	for _, a := range amounts {
+		for _, u := range units {
+			got := bchutil.Amount(a).ToUnit(bchutil.AmountUnit(u))
+			calls = append(calls, eqf(fmt.Sprintf("(Kernels4.Amount_ToUnit (%d)%%Z (%d)%%Z)", a, u), got))
+		}
+		calls = append(calls, eqf(fmt.Sprintf("(Kernels4.Amount_ToBCH (%d)%%Z)", a), bchutil.Amount(a).ToBCH()))
+		for _, f := range floats[:24] {
+			got := bchutil.Amount(a).MulF64(f)
+			calls = append(calls, fmt.Sprintf("(Kernels4.Amount_MulF64 (%d)%%Z %s =? %d)%%Z", a, fl(f), int64(got)))
+		}
+	}
+	for _, u := range append(units, 10, 12345, -12345, math.MaxInt64, math.MinInt64) {
+		s := bchutil.AmountUnit(u).String()
+		calls = append(calls, fmt.Sprintf("list_eqb (Kernels4.AmountUnit_String fmtint (%d)%%Z) (%s%%N)", u, blist([]byte(s))))
+	}
+	runDiff4(t, prelude7f, calls)
+}
+
+const prelude7b = `From Coq Require Import ZArith NArith List Bool.
+From BU Require Import Lib.Bytes.
+From BU Require Gen.Kernels3.
+From T7 Require Gen.Kernels4.
+Import ListNotations.
+Notation MsgTx := (Kernels3.wire_MsgTx unit).
+Notation Tx := (Kernels3.bchutil_Tx unit).
+Notation Blk := (Kernels4.bchutil_Block_h unit unit).
+Inductive op := OTx (k : Z) | OTxHash (k : Z) | OTransactions.
+(* MsgTx.TxHash: looked up by LockTime in the table the Go side computed *)
+Definition txhash (tab : list (N * list N)) (m : option MsgTx) : list N :=
+  match m with
+  | Some x => match List.find (fun e => (fst e =? Kernels3.wire_MsgTx_LockTime unit x)%N) tab with Some e => snd e | None => [] end
+  | None => []
+  end.
+Definition locktime (h : list Tx) (p : option N) : Z :=
+  match Kernels4.Go4.hget h p with
+  | Ok t => match Kernels3.bchutil_Tx_msgTx unit t with Some m => Z.of_N (Kernels3.wire_MsgTx_LockTime unit m) | None => (-1)%Z end
+  | _ => (-2)%Z
+  end.
+Definition index (h : list Tx) (p : option N) : Z :=
+  match Kernels4.Go4.hget h p with Ok t => Kernels3.bchutil_Tx_txIndex unit t | _ => (-2)%Z end.
+Definition pz (p : option N) : Z := match p with Some i => Z.of_N i | None => (-1)%Z end.
+(* observations: per operation a list of integers; pointers are reported as heap indices (renamed at the end) *)
+Fixpoint runops (tab : list (N * list N)) (ops : list op) (h : list Tx) (b : Blk) : list (list Z) * list (option N) :=
+  match ops with
+  | [] => ([], Kernels4.bchutil_Block_h_transactions unit unit b)
+  | o :: rest =>
+      match o with
+      | OTx k =>
+          match Kernels4.hBlock_Tx unit unit h b k with
+          | Ok (p, e, b', h') =>
+              let (obs, fin) := runops tab rest h' b' in
+              ((if (e =? 0)%N then [0%Z; index h' p; locktime h' p; (1000000 + pz p)%Z] else [1%Z]) :: obs, fin)
+          | _ => ([[(-99)%Z]], [])
+          end
+      | OTxHash k =>
+          match Kernels4.hBlock_TxHash unit unit (txhash tab) h b k with
+          | Ok (hs, e, b', h') =>
+              let (obs, fin) := runops tab rest h' b' in
+              ((if (e =? 0)%N then 0%Z :: List.map Z.of_N (match hs with Some x => x | None => [] end) else [1%Z]) :: obs, fin)
+          | _ => ([[(-99)%Z]], [])
+          end
+      | OTransactions =>
+          match Kernels4.hBlock_Transactions unit unit h b with
+          | Ok (l, b', h') =>
+              let (obs, fin) := runops tab rest h' b' in
+              (List.map (fun p => (1000000 + pz p)%Z) l :: obs, fin)
+          | _ => ([[(-99)%Z]], [])
+          end
+      end
+  end.
+(* a pointer (1000000 + heap index) is renamed to 1000000 + the slot of the final transactions slice holding it *)
+Fixpoint slot_of (fin : list (option N)) (p : Z) (k : Z) : Z :=
+  match fin with
+  | [] => (-5)%Z
+  | Some i :: t => if (Z.of_N i =? p)%Z then k else slot_of t p (k + 1)%Z
+  | None :: t => slot_of t p (k + 1)%Z
+  end.
+Definition rename (fin : list (option N)) (z : Z) : Z := if (1000000 <=? z)%Z then (1000000 + slot_of fin (z - 1000000) 0)%Z else z.
+Fixpoint zl_eqb (a b : list Z) : bool :=
+  match a, b with [], [] => true | x :: a', y :: b' => (x =? y)%Z && zl_eqb a' b' | _, _ => false end.
+Fixpoint zll_eqb (a b : list (list Z)) : bool :=
+  match a, b with [], [] => true | x :: a', y :: b' => zl_eqb x y && zll_eqb a' b' | _, _ => false end.
+Definition check (tab : list (N * list N)) (ops : list op) (b : Blk) (want : list (list Z)) : bool :=
+  let (obs, fin) := runops tab ops [] b in
+  zll_eqb (List.map (List.map (rename fin)) obs) want.
+`
+
+// (*Block).Tx / TxHash / Transactions of the heap variant against the real Block: values and the IDENTITY
+// of the *Tx objects handed out (same pointer <-> same heap index)
+func TestDifferential7Block(t *testing.T) {
+	rng := rand.New(rand.NewSource(707))
+	var calls []string
+	for i := 0; i < 25; i++ {
+		n := rng.Intn(5)
+		blk := wire.NewMsgBlock(&wire.BlockHeader{})
+		var txs, tab []string
+		for j := 0; j < n; j++ {
+			tx := wire.NewMsgTx(int32(1 + rng.Intn(2)))
+			tx.LockTime = uint32(1000*i + j)
+			blk.AddTransaction(tx)
+			txs = append(txs, "Some "+coqMsgTx(tx))
+			h := tx.TxHash()
+			tab = append(tab, fmt.Sprintf("(%d%%N, %s%%N)", tx.LockTime, blist(h[:])))
+		}
+		coqBlk := fmt.Sprintf("(Kernels4.mk_bchutil_Block_h unit unit (Some (Kernels3.mk_wire_MsgBlock unit unit tt [%s])) [] None (-1)%%Z [] false)", strings.Join(txs, ";"))
+		b := bchutil.NewBlock(blk)
+		type obs struct {
+			vals []int64
+			ptrs map[int]*bchutil.Tx // position in vals -> pointer
+		}
+		var all []obs
+		var ops []string
+		nops := 1 + rng.Intn(6)
+		for k := 0; k < nops; k++ {
+			o := obs{ptrs: map[int]*bchutil.Tx{}}
+			switch rng.Intn(5) {
+			case 0, 1:
+				idx := rng.Intn(n+2) - 1
+				ops = append(ops, fmt.Sprintf("OTx (%d)%%Z", idx))
+				tx, err := b.Tx(idx)
+				if err != nil {
+					o.vals = []int64{1}
+				} else {
+					o.vals = []int64{0, int64(tx.Index()), int64(tx.MsgTx().LockTime), 0}
+					o.ptrs[3] = tx
+				}
+			case 2, 3:
+				idx := rng.Intn(n+2) - 1
+				ops = append(ops, fmt.Sprintf("OTxHash (%d)%%Z", idx))
+				h, err := b.TxHash(idx)
+				if err != nil {
+					o.vals = []int64{1}
+				} else {
+					o.vals = []int64{0}
+					for _, x := range h[:] {
+						o.vals = append(o.vals, int64(x))
+					}
+				}
+			default:
+				ops = append(ops, "OTransactions")
+				for j, tx := range b.Transactions() {
+					o.vals = append(o.vals, 0)
+					o.ptrs[j] = tx
+				}
+			}
+			all = append(all, o)
+		}
+		// the final slice (what the block holds now, without generating the missing wrappers): read through Tx(k)
+		// only for the slots that exist -- Transactions() would allocate; instead compare with the pointers seen
+		final := map[*bchutil.Tx]int{}
+		// a pointer's slot is its Index() (SetIndex(k) at creation, never changed by these operations)
+		for _, o := range all {
+			for _, p := range o.ptrs {
+				final[p] = p.Index()
+			}
+		}
+		var want []string
+		for _, o := range all {
+			var zs []string
+			for j, v := range o.vals {
+				if p, ok := o.ptrs[j]; ok {
+					v = int64(1000000 + final[p])
+				}
+				zs = append(zs, fmt.Sprintf("(%d)%%Z", v))
+			}
+			want = append(want, "["+strings.Join(zs, ";")+"]")
+		}
+		calls = append(calls, fmt.Sprintf("check [%s] [%s] %s [%s]", strings.Join(tab, ";"), strings.Join(ops, ";"), coqBlk, strings.Join(want, ";")))
+	}
+	runDiff4(t, prelude7b, calls)
+}
+
+// bloom.NewFilter against Kernels4.NewFilter; math.Log is a Section variable, instantiated per call by the
+// value the Go library returns for the (clamped) rate
+func TestDifferential7NewFilter(t *testing.T) {
+	rng := rand.New(rand.NewSource(76))
+	var calls []string
+	rates := []float64{0.5, 0.01, 0.0001, 1e-9, 1e-12, 0, -1, 1, 1.5, 2, 0.999999, 1e-8, 0.05, math.NaN(), math.Inf(1), math.Inf(-1)}
+	elems := []uint32{0, 1, 2, 3, 10, 100, 1000, 20000, 1 << 20, 1 << 31, math.MaxUint32}
+	type cse struct {
+		n  uint32
+		fp float64
+	}
+	var cases []cse
+	for _, n := range elems {
+		for _, fp := range rates {
+			cases = append(cases, cse{n, fp})
+		}
+	}
+	for i := 0; i < 60; i++ {
+		cases = append(cases, cse{uint32(rng.Intn(50000)), rng.Float64() * rng.Float64()})
+	}
+	for _, c := range cases {
+		f := bloom.NewFilter(c.n, rng.Uint32(), c.fp, wire.BloomUpdateNone)
+		m := f.MsgFilterLoad()
+		cl := c.fp
+		if cl > 1.0 {
+			cl = 1.0
+		}
+		if cl < 1e-9 {
+			cl = 1e-9
+		}
+		lg := math.Log(cl)
+		calls = append(calls, fmt.Sprintf("chk (Kernels4.NewFilter (fun _ => of_bits %d%%N) mkmsg %d 7 (of_bits %d%%N) 0) %d %d",
+			math.Float64bits(lg), c.n, math.Float64bits(c.fp), len(m.Filter), m.HashFuncs))
+	}
+	runDiff4(t, `From Coq Require Import ZArith NArith List Bool.
+From BU Require Import Lib.Bytes Amount.Amount.
+From BU Require Gen.Kernels3.
+From T7 Require Gen.Kernels4.
+Import ListNotations.
+Definition mkmsg (d : list N) (h t f : N) := Some (Kernels3.mk_wire_MsgFilterLoad d h t f).
+Definition chk (r : option Kernels3.bloom_Filter) (len hf : N) : bool :=
+  match r with
+  | Some f => match Kernels3.bloom_Filter_msgFilterLoad f with
+              | Some m => (N.of_nat (List.length (Kernels3.wire_MsgFilterLoad_Filter m)) =? len)%N && (Kernels3.wire_MsgFilterLoad_HashFuncs m =? hf)%N
+              | None => false end
+  | None => false
+  end.
+`, calls)
+}
+
+const prelude7j = `From Coq Require Import ZArith NArith List Bool.
+From BU Require Import Lib.Bytes Amount.Amount JsonPb.JsonPb JsonPb.Codecs.
+From T7 Require Gen.Kernels4.
+Import ListNotations.
+Notation J := Kernels4.json_any.
+Definition opt_err {A} (z : A) (o : option A) : A * N := match o with Some x => (x, 0%N) | None => (z, 1%N) end.
+Definition optp_err (o : option (list N)) : option (list N) * N := match o with Some x => (Some x, 0%N) | None => (None, 1%N) end.
+Definition hstr (h : option (list N)) : list N := match h with Some x => hash_string x | None => [] end.
+Definition hbytes (h : option (list N)) : list N := match h with Some x => x | None => [] end.
+Definition cb64 := Kernels4.convertBase64 unit hex_encode (fun _ _ l => l) tt (fun _ s => opt_err [] (b64_decode s))
+  (fun b => optp_err (new_hash b)) hstr.
+Definition chex := Kernels4.convertHex unit (fun s => opt_err [] (hex_decode s)) hbytes (fun _ _ l => l) tt
+  (fun s => optp_err (hash_from_str s)) (fun _ b => b64_encode b).
+Fixpoint jeqb (a b : J) {struct a} : bool :=
+  match a, b with
+  | Kernels4.json_any_nil, Kernels4.json_any_nil => true
+  | Kernels4.json_any_bool x, Kernels4.json_any_bool y => Bool.eqb x y
+  | Kernels4.json_any_float64 x, Kernels4.json_any_float64 y => (bits_of x =? bits_of y)%N
+  | Kernels4.json_any_string x, Kernels4.json_any_string y => list_eqb x y
+  | Kernels4.json_any_slice x, Kernels4.json_any_slice y =>
+      (fix go (l1 l2 : list J) : bool := match l1, l2 with [], [] => true | p :: t1, q :: t2 => jeqb p q && go t1 t2 | _, _ => false end) x y
+  | Kernels4.json_any_map (Some x), Kernels4.json_any_map (Some y) =>
+      (fix go (l1 l2 : list (list N * J)) : bool :=
+         match l1, l2 with [], [] => true | (k1, p) :: t1, (k2, q) :: t2 => list_eqb k1 k2 && jeqb p q && go t1 t2 | _, _ => false end) x y
+  | _, _ => false
+  end.
+Definition chk (r : res J) (want : J) : bool := match r with Ok j => jeqb j want | _ => false end.
+`
+
+// convertBase64 / convertHex (jsonpb) on random JSON trees: the real functions rewrite in place, the
+// translation returns the new tree; maps are compared with their keys sorted (map_order := identity)
+func TestDifferential7Json(t *testing.T) {
+	rng := rand.New(rand.NewSource(75))
+	var coq func(v interface{}) string
+	coq = func(v interface{}) string {
+		switch x := v.(type) {
+		case nil:
+			return "Kernels4.json_any_nil"
+		case bool:
+			return fmt.Sprintf("(Kernels4.json_any_bool %v)", x)
+		case float64:
+			return fmt.Sprintf("(Kernels4.json_any_float64 (of_bits %d%%N))", math.Float64bits(x))
+		case string:
+			return fmt.Sprintf("(Kernels4.json_any_string %s%%N)", blist([]byte(x)))
+		case []interface{}:
+			var el []string
+			for _, e := range x {
+				el = append(el, coq(e))
+			}
+			return "(Kernels4.json_any_slice [" + strings.Join(el, ";") + "])"
+		case map[string]interface{}:
+			var ks []string
+			for k := range x {
+				ks = append(ks, k)
+			}
+			sort.Strings(ks)
+			var el []string
+			for _, k := range ks {
+				el = append(el, fmt.Sprintf("(%s%%N, %s)", blist([]byte(k)), coq(x[k])))
+			}
+			return "(Kernels4.json_any_map (Some [" + strings.Join(el, ";") + "]))"
+		}
+		t.Fatalf("unexpected %T", v)
+		return ""
+	}
+	rstr := func() string {
+		b := make([]byte, []int{0, 1, 5, 20, 32, 32, 33, 48}[rng.Intn(8)])
+		rng.Read(b)
+		switch rng.Intn(6) {
+		case 0:
+			return base64.StdEncoding.EncodeToString(b)
+		case 1:
+			return hex.EncodeToString(b)
+		case 2:
+			return strings.ToUpper(hex.EncodeToString(b))
+		case 3:
+			return "not base64!"
+		case 4:
+			return string(b)
+		}
+		return base64.StdEncoding.EncodeToString(b)[:rng.Intn(5)]
+	}
+	var gen func(depth int) interface{}
+	gen = func(depth int) interface{} {
+		k := rng.Intn(7)
+		if depth <= 0 && k >= 4 {
+			k = rng.Intn(4)
+		}
+		switch k {
+		case 0:
+			return nil
+		case 1:
+			return rng.Intn(2) == 0
+		case 2:
+			return float64(rng.Intn(1000)) / 8
+		case 3:
+			return rstr()
+		case 4, 5:
+			m := map[string]interface{}{}
+			for i, n := 0, rng.Intn(4); i < n; i++ {
+				m[fmt.Sprintf("k%d", rng.Intn(6))] = gen(depth - 1)
+			}
+			return m
+		}
+		var l []interface{}
+		n := rng.Intn(4)
+		homog := rng.Intn(3) // mostly homogeneous arrays, as JSON from protobuf is
+		for i := 0; i < n; i++ {
+			switch {
+			case homog == 0:
+				l = append(l, rstr())
+			case homog == 1:
+				l = append(l, gen(depth-1))
+			default:
+				if i == 0 {
+					l = append(l, rstr())
+				} else {
+					l = append(l, gen(depth-1))
+				}
+			}
+		}
+		if l == nil {
+			l = []interface{}{}
+		}
+		return l
+	}
+	var calls []string
+	for i := 0; i < 120; i++ {
+		v := gen(3)
+		before := coq(v)
+		fn := "cb64"
+		if i%2 == 0 {
+			jsonpb.VerifConvertBase64(v)
+		} else {
+			fn = "chex"
+			jsonpb.VerifConvertHex(v)
+		}
+		calls = append(calls, fmt.Sprintf("chk (%s 50 %s) %s", fn, before, coq(v)))
+	}
+	// out of fuel: a document deeper than the fuel
+	calls = append(calls, "match cb64 1 (Kernels4.json_any_slice [Kernels4.json_any_slice []]) with Panic 9 => true | _ => false end")
+	runDiff4(t, prelude7j, calls)
 }
